@@ -27,6 +27,12 @@ def canon_msg(msg):
     if not isinstance(msg, str): return repr(msg)
     return '; '.join(sorted(msg.split('; ')))
 
+def canon_info(v):
+    """monitor info records: 'STOP("a; b")' carries a set-ordered termination message"""
+    if isinstance(v, str) and v.startswith('STOP("') and v.endswith('")'):
+        return 'STOP("%s")' % canon_msg(v[6:-2])
+    return canon(v)
+
 def feq(a, b):
     """exact equality of canonical values, treating nan == nan"""
     if isinstance(a, tuple) and isinstance(b, tuple):
@@ -42,7 +48,7 @@ def monitor_snap(m):
     if m is None: return None
     return {'type': type(m).__name__,
             'x': canon(getattr(m, '_x', ())), 'y': canon(getattr(m, '_y', ())),
-            'id': canon(getattr(m, '_id', ())), 'info': canon(getattr(m, '_info', ())),
+            'id': canon(getattr(m, '_id', ())), 'info': tuple(canon_info(i) for i in (getattr(m, '_info', ()) or ())),
             'k': canon(getattr(m, 'k', None))}
 
 def solver_snap(s, monitors=True):
